@@ -424,8 +424,28 @@ def _delete_by_label():
     return ops
 
 
+def _digit_labels():
+    """Labels that begin with a digit (or look like a piece of a group name) next to plain snapshots over uneven cycles: the listing
+    stays the written (cycle, node) pairs in chronological order; merge / split / hasTimeStep / load / history go by exact name."""
+    ops = [("open",)]
+    val = 0
+    for (c, n, labs) in ((0, 0, ["", "2ndPass"]), (0, 1, ["", "1", "007x"]), (0, 2, ["12"]), (1, 0, ["", "n01", "0"]), (1, 1, ["", "c01n02"]),
+                         (2, 0, ["", "-2"])):
+        for lab in labs:
+            val += 3
+            ops += [("set", c, n, val, val + 1), ("write", lab)]
+    ops += [("steps",), ("file",), ("merge", 0, 2), ("merge", 1, 0), ("merge", 1, 1), ("merge", 0, 1), ("merge", 2, 0), ("merge", 3, 0)]
+    for (c, n, lab) in ((0, 1, "1"), (0, 1, "007x"), (0, 1, ""), (0, 2, "12"), (0, 2, ""), (0, 12, ""), (0, 11, ""), (1, 0, "n01"), (1, 0, "0"),
+                        (1, 1, "c01n02"), (10, 0, ""), (0, 10, "07x")):
+        ops += [("has", c, n, lab), ("load", c, n, lab, "db" if (c + n) % 2 else "dbi"), ("histlabel", BLOCK, c, n, lab)]
+    ops += [("history", BLOCK), ("history", CORE), ("delete", 0, 1, "1"), ("steps",), ("split", [[0, 1], [1, 1], [2, 0]]), ("steps",), ("file",),
+            ("history", BLOCK), ("close", True), ("file",), ("load", 0, 1, "", "readonly")]
+    return ops
+
+
 FIXED = [
     _labelled_routes(),
+    _digit_labels(),
     _delete_by_label(),
     # (former F13, repaired) stop step absent from the source, later steps present: only the earlier steps are copied
     [("open",), ("set", 0, 0, 1, 1), ("write", ""), ("set", 0, 2, 2, 2), ("write", ""), ("set", 1, 0, 3, 3), ("write", ""),
@@ -459,6 +479,17 @@ FIXED = [
 ]
 
 
+def gen_label(rng):
+    """A state-point label: the usual ones, or free text from an alphabet with leading digits, dashes, 'n', 'c' - text that a greedy
+    name pattern could absorb into the cycle / node digits of cXXnYY<label>."""
+    if rng.random() < 0.5:
+        return rng.choice(["EOL", "error", "x1"])
+    if rng.random() < 0.4:
+        return rng.choice(["2ndPass", "1", "007x", "12", "0", "n01", "c01n02", "-2", "9n9", "3-c"])
+    lab = "".join(rng.choice("0123456789nc-xE") for _ in range(rng.randint(1, 5)))
+    return lab if lab != "-" else "-0"      # a lone "-" is how the driver protocol spells the empty label
+
+
 def gen_history(rng):
     ops = [("open",)]
     big = rng.random() < 0.15
@@ -479,7 +510,7 @@ def gen_history(rng):
                     n = rng.randint(0, 99)
             ops.append(("set", c, n, val, val * 3 + 1))
         elif x < 0.5:
-            label = rng.choice(["", "", "", "", "EOL", "error", "x1"])
+            label = "" if rng.random() < 0.55 else gen_label(rng)
             ops.append(("write", label))
             if label == "":
                 written.append((c, n))
@@ -490,7 +521,7 @@ def gen_history(rng):
                 cc, nn = rng.choice(written)
             else:
                 cc, nn = rng.randint(0, 3), rng.randint(0, 3)
-            lab = rng.choice(["", "", "", "EOL", "error", "x1"])
+            lab = "" if rng.random() < 0.5 else gen_label(rng)
             if labelled and rng.random() < 0.45:      # a labelled snapshot that exists (its node may also have an unlabelled one)
                 cc, nn, lab = rng.choice(labelled)
                 if rng.random() < 0.3:
@@ -1697,6 +1728,11 @@ def section_crashes(ctx):
         points = [(None, "exception")]
         vk = ctx.rng.randint(0, 5) if isinstance(pos, list) else 0
         for K in range(1, len(fidx) + 1):
+            ev_ = events[fidx[K - 1]]
+            if ev_[0] == "BOC" and ev_[3] >= 1 and shape[1] >= 1 and not ctx.thorough and (isinstance(pos, list) or (K + pos + sidx) % 2 != 0):
+                # always: a failure inside a beginning-of-cycle hook of a LATER cycle (the previous cycle ended at a node != 0)
+                points.append((K, ABORT_KINDS[(K + sidx) % 3]))
+                continue
             if isinstance(pos, list):
                 # a generated stack: every second (quick: every third) hook call of the fault, abort kind rotating
                 if (K + vk) % ctx.pick(3, 2) == 0:
@@ -1748,7 +1784,9 @@ def oracle_crash(ctx, case, shape, pos, K, ref, summ, calls, crashed, extra):
     nodes_expected = sorted(gname(c, n) for c in range(shape[0]) for n in range(shape[1] + 1))
     fcount = 0
     writes, opened, finalised = [], False, False
+    reached = set()
     for (hook, ident, args, rc, rn) in ref:
+        reached.add(gname(rc, rn))
         if ident == FAULT:
             fcount += 1
             if K is not None and fcount == K:
@@ -1785,8 +1823,18 @@ def oracle_crash(ctx, case, shape, pos, K, ref, summ, calls, crashed, extra):
             ctx.fail("failure-after-finalisation-changes-file", "a failure after the database was finalised leaves the completed file",
                      case, observed=summ[:300])
         return
-    c, n = calls[-1][1], calls[-1][2]
+    # the point of failure, from the reference schedule alone: the (cycle, node) of the interaction that failed
+    c, n = rc, rn
+    if (calls[-1][1], calls[-1][2]) != (c, n):
+        ctx.fail("crash-time-state-at-failing-hook", "inside the failing hook the reactor's (cycle, node) is the (cycle, node) of that "
+                 "interaction (a beginning-of-cycle hook of a later cycle sees node 0)", case,
+                 observed=[calls[-1][0], calls[-1][1], calls[-1][2]], expected=[hook, c, n])
     want = sorted(writes + [gname(c, n, "error")])
+    visited = reached       # every (cycle, node) some interaction up to the failure took place at
+    stray = [nm for nm in (extra.get("names") or []) if nm[:6] not in visited]
+    if stray:
+        ctx.fail("crash-file-lists-unvisited-step", "every (cycle, node) the file lists was actually visited by the run; the error snapshot "
+                 "is filed at the point of failure", case, observed=stray, expected=gname(c, n, "error"))
     if summ == "none":
         ctx.fail("crash-file-missing", "an aborted run leaves its database file in the working directory", case)
         return
@@ -1796,8 +1844,8 @@ def oracle_crash(ctx, case, shape, pos, K, ref, summ, calls, crashed, extra):
         ctx.fail("crash-file-snapshots", "the file holds every snapshot completed before the failure plus the state at the failure",
                  case, observed=extra.get("names"), expected=want)
     if extra.get("error_state") != (c, n, K):
-        ctx.fail("crash-error-snapshot-state", "the error snapshot loads and holds the state at the failure (value set just before it)",
-                 case, observed=extra.get("error_state"), expected=(c, n, K))
+        ctx.fail("crash-error-snapshot-state", "the error snapshot loads and holds the state at the failure (value set just before it), its "
+                 "stored cycle / node being its address", case, observed=extra.get("error_state"), expected=(c, n, K))
 
 
 # --------------------------------------------------------------------------- (4) restart runs: history merged from an earlier database
@@ -2026,6 +2074,8 @@ def run(ctx):
     section_restart(ctx)
     ctx.rule = ("(1) fixed + generated histories of open/set/write[label]/load/steps/history/merge/split/close on a real Database "
                 "(one case = one history; every op's answer compared with the stateful model and judged by the shadow-record oracle); "
+                "labels in (1) are drawn from an alphabet with leading digits, dashes, 'n', 'c'; every crash point's error snapshot is "
+                "addressed from the reference schedule (a BOC hook of a later cycle is always among the crash points); "
                 "(1c) histories by location for several objects after swaps / removals (one case = one history); loads by label through "
                 "six routes inside (1); "
                 "(1b) forked-child histories in which never-assigned parameters become assigned at random steps, every step written, "
